@@ -41,6 +41,8 @@ pub struct Obj {
     pub had_snap: AtomicBool,
     pub had_weak: AtomicBool,
     pub inc_from_zero: AtomicBool,
+    /// created by a bulk constructor or receiver of `weak_many` (signature suffix `|bulk`, used by C10)
+    pub bulkish: AtomicBool,
 }
 
 impl Obj {
@@ -70,6 +72,7 @@ impl Obj {
             had_snap: AtomicBool::new(false),
             had_weak: AtomicBool::new(false),
             inc_from_zero: AtomicBool::new(false),
+            bulkish: AtomicBool::new(false),
         }
     }
     fn reset(&self) {
@@ -98,6 +101,7 @@ impl Obj {
         self.touched.store(0, Relaxed);
         self.had_snap.store(false, Relaxed);
         self.had_weak.store(false, Relaxed);
+        self.bulkish.store(false, Relaxed);
         self.inc_from_zero.store(false, Relaxed);
     }
 }
@@ -442,13 +446,13 @@ fn on_dealloc(addr: usize) {
         o.wsnap.load(SeqCst),
     );
     if rc > 0 || bulk > 0 {
-        violation("C01", "C01|dealloc-while-strong-owner", format!("obj {} deallocated while ledger has rc={} bulk={}", id, rc, bulk));
+        violation("C01", &format!("C01|dealloc-while-strong-owner{}", bulk_tag(id)), format!("obj {} deallocated while ledger has rc={} bulk={}", id, rc, bulk));
     }
     if snap > 0 {
         violation("C02", "C02|dealloc-while-snapshot", format!("obj {} deallocated while {} snapshot(s) under live guards", id, snap));
     }
     if weak > 0 {
-        violation("C03", "C03|dealloc-while-weak-owner", format!("obj {} deallocated while ledger has weak={}", id, weak));
+        violation("C03", &format!("C03|dealloc-while-weak-owner{}", bulk_tag(id)), format!("obj {} deallocated while ledger has weak={}", id, weak));
     }
     if wsnap > 0 {
         violation("C03", "C03|dealloc-while-weak-snapshot", format!("obj {} deallocated while {} weak snapshot(s) under live guards", id, wsnap));
@@ -581,13 +585,22 @@ pub fn on_pop_edges(id: u32) {
     }
 }
 
+/// `|bulk` for objects that went through a bulk constructor / `weak_many`.
+pub fn bulk_tag(id: u32) -> &'static str {
+    if obj(id).bulkish.load(Relaxed) {
+        "|bulk"
+    } else {
+        ""
+    }
+}
+
 fn check_owners_at_destruct(id: u32, what: &str) {
     let o = obj(id);
     let (rc, bulk, snap) = (o.rc.load(SeqCst), o.bulk.load(SeqCst), o.snap.load(SeqCst));
     if rc > 0 || bulk > 0 {
         violation(
             "C01",
-            &format!("C01|{}-while-strong-owner|{}", what, path_name()),
+            &format!("C01|{}-while-strong-owner|{}{}", what, path_name(), bulk_tag(id)),
             format!("obj {}: {} began while the ledger holds rc={} bulk={} (depth {})", id, what, rc, bulk, CUR_DEPTH.with(|d| d.get())),
         );
     }
